@@ -16,6 +16,9 @@
                       Early returns are translated in continuation-passing style (`if c: ...; return` followed by S
                       is `if c: ... else: S`), boolean / key locals are inlined; branches about other keys (nodeid,
                       property C08) must not touch the indexes and are skipped.
+  gen_remove_copyset  _remove_copyset as a shape (SM/IndexRemove.v [rc_shape]): how the set is fetched (.get / defaultdict
+                      read / read after a membership test), whether anything runs when there is none, discard vs
+                      remove, when the key is deleted.  Early returns are normalised to `if`/`else`.
   gen_add_ents        VMF.add_ents as a program over its iterable argument (SM/IndexMaint.v [aeprog]): is the argument
                       materialised, which collection is each loop / extend fed from, what does each loop body do.
 
@@ -475,6 +478,170 @@ def _copyset_iter(fn: ast.FunctionDef) -> tuple[str, dict]:
     return f'Definition gen_copyset_iter : iprog := {lst}.\n', dict(prog=prog)
 
 
+
+# ---------------------------------------------------------------------------------------------- _remove_copyset
+def _remove_copyset_shape(fn: ast.FunctionDef) -> tuple[str, dict]:
+    """The helper as a shape (SM/IndexRemove.v [rc_shape]): how the set is fetched, whether anything runs when there is
+    none, discard vs remove, and when the key is deleted.  Early returns are first rewritten into nested `if`s; the
+    walk is fail-closed (`try: s = mapping[key] except KeyError` is not accepted: on the defaultdicts this helper is
+    called with, the read inserts an empty set and never raises)."""
+    where = '_remove_copyset'
+    params = [a.arg for a in fn.args.args]
+    if len(params) != 3 or fn.args.vararg or fn.args.kwarg or fn.args.kwonlyargs:
+        raise TranslateError(f'{where}: unexpected parameters {params}')
+    mp, kp, ep = params
+
+    def nm(e: ast.AST, name: str | None) -> bool:
+        return name is not None and isinstance(e, ast.Name) and e.id == name
+
+    def is_sub(e: ast.AST) -> bool:
+        return isinstance(e, ast.Subscript) and nm(e.value, mp) and nm(e.slice, kp)
+
+    def is_none(e: ast.AST) -> bool:
+        return isinstance(e, ast.Constant) and e.value is None
+
+    def has_return(stmts: list[ast.stmt]) -> bool:
+        return any(isinstance(n, ast.Return) for st in stmts for n in ast.walk(st))
+
+    def norm(stmts: list[ast.stmt]) -> list[ast.stmt]:
+        out: list[ast.stmt] = []
+        for i, st in enumerate(stmts):
+            rest = stmts[i + 1:]
+            if isinstance(st, ast.Pass) or (isinstance(st, ast.Expr) and isinstance(st.value, ast.Constant)):
+                continue
+            if isinstance(st, ast.Return):
+                if st.value is not None and not is_none(st.value):
+                    raise TranslateError(f'{where}:{st.lineno}: returns a value')
+                return out
+            if isinstance(st, ast.If):
+                b_ret = bool(st.body) and isinstance(st.body[-1], ast.Return)
+                o_ret = bool(st.orelse) and isinstance(st.orelse[-1], ast.Return)
+                if has_return(st.body[:-1] if b_ret else st.body) or has_return(st.orelse[:-1] if o_ret else st.orelse):
+                    raise TranslateError(f'{where}:{st.lineno}: nested return')
+                if b_ret or o_ret:
+                    # `if c: A; return` followed by R  ==  `if c: A else: R`
+                    body = norm(st.body) if b_ret else norm(st.body + rest)
+                    orelse = norm(st.orelse) if o_ret else norm(st.orelse + rest)
+                    out.append(ast.If(test=st.test, body=body, orelse=orelse, lineno=st.lineno))
+                    return out
+                out.append(ast.If(test=st.test, body=norm(st.body), orelse=norm(st.orelse), lineno=st.lineno))
+                continue
+            out.append(st)
+        return out
+
+    S: dict = dict(look=None, var=None, guarded=False, in_guard=False, rem=None, drop=None)
+
+    def is_var(e: ast.AST) -> bool:
+        return nm(e, S['var'])
+
+    def truth(e: ast.expr) -> bool | None:
+        """test on the set: True = 'the set is non-empty', False = 'the set is empty', None = not such a test"""
+        if is_var(e):
+            return True
+        if isinstance(e, ast.UnaryOp) and isinstance(e.op, ast.Not):
+            t = truth(e.operand)
+            return None if t is None else not t
+        is_len = isinstance(e, ast.Call) and nm(e.func, 'len') and len(e.args) == 1 and not e.keywords and is_var(e.args[0])
+        if is_len:
+            return True
+        if isinstance(e, ast.Compare) and len(e.ops) == 1 and isinstance(e.comparators[0], ast.Constant) and e.comparators[0].value == 0 \
+                and isinstance(e.left, ast.Call) and nm(e.left.func, 'len') and len(e.left.args) == 1 and is_var(e.left.args[0]):
+            if isinstance(e.ops[0], ast.Eq):
+                return False
+            if isinstance(e.ops[0], (ast.NotEq, ast.Gt)):
+                return True
+        return None
+
+    def is_del(st: ast.stmt) -> bool:
+        if isinstance(st, ast.Delete) and len(st.targets) == 1 and is_sub(st.targets[0]):
+            return True
+        if isinstance(st, ast.Expr) and isinstance(st.value, ast.Call) and isinstance(st.value.func, ast.Attribute) \
+                and st.value.func.attr == 'pop' and nm(st.value.func.value, mp) and not st.value.keywords and st.value.args \
+                and nm(st.value.args[0], kp) and (len(st.value.args) == 1 or (len(st.value.args) == 2 and is_none(st.value.args[1]))):
+            return True
+        return False
+
+    def only_del(block: list[ast.stmt], w: str) -> bool:
+        if not block:
+            return False
+        if len(block) == 1 and is_del(block[0]):
+            return True
+        raise TranslateError(f'{w}: unrecognised statements under the emptiness test')
+
+    def walk(stmts: list[ast.stmt]) -> None:
+        for i, st in enumerate(stmts):
+            w = f'{where}:{getattr(st, "lineno", fn.lineno)}'
+            rest = stmts[i + 1:]
+            if isinstance(st, ast.AnnAssign) and st.value is not None:
+                st = ast.Assign(targets=[st.target], value=st.value, lineno=st.lineno)
+            # -- the lookup
+            if isinstance(st, ast.Assign) and len(st.targets) == 1 and isinstance(st.targets[0], ast.Name) and S['look'] is None:
+                v = st.value
+                if isinstance(v, ast.Call) and isinstance(v.func, ast.Attribute) and v.func.attr == 'get' and nm(v.func.value, mp) \
+                        and not v.keywords and v.args and nm(v.args[0], kp) and (len(v.args) == 1 or (len(v.args) == 2 and is_none(v.args[1]))):
+                    S['look'] = 'LGet'
+                elif is_sub(v):
+                    S['look'] = 'LIndexIfIn' if S['in_guard'] else 'LIndex'
+                else:
+                    raise TranslateError(f'{w}: unrecognised lookup {ast.unparse(v)}')
+                S['var'] = st.targets[0].id
+                if S['var'] in params:
+                    raise TranslateError(f'{w}: the set is bound to a parameter name')
+                S['guarded'] = S['in_guard']
+                continue
+            if isinstance(st, ast.If):
+                t = st.test
+                # `key in mapping` before the lookup
+                if S['look'] is None and isinstance(t, ast.Compare) and len(t.ops) == 1 and nm(t.left, kp) and nm(t.comparators[0], mp) \
+                        and isinstance(t.ops[0], (ast.In, ast.NotIn)):
+                    found, absent = (st.body, st.orelse) if isinstance(t.ops[0], ast.In) else (st.orelse, st.body)
+                    if absent or rest:
+                        raise TranslateError(f'{w}: code runs when the key is absent')
+                    S['in_guard'] = True
+                    walk(found)
+                    return
+                # `s is not None` after a .get lookup
+                if S['look'] is not None and S['rem'] is None and isinstance(t, ast.Compare) and len(t.ops) == 1 and is_var(t.left) \
+                        and is_none(t.comparators[0]) and isinstance(t.ops[0], (ast.Is, ast.IsNot)):
+                    found, absent = (st.body, st.orelse) if isinstance(t.ops[0], ast.IsNot) else (st.orelse, st.body)
+                    if absent or rest:
+                        raise TranslateError(f'{w}: code runs when no set was found')
+                    S['guarded'] = True
+                    walk(found)
+                    return
+                # the emptiness test after the removal
+                if S['rem'] is not None and S['drop'] is None and truth(t) is not None:
+                    nonempty, empty = (st.body, st.orelse) if truth(t) else (st.orelse, st.body)
+                    de, dn = only_del(empty, w), only_del(nonempty, w)
+                    S['drop'] = {(True, False): 'DIfEmpty', (False, True): 'DIfNonEmpty', (True, True): 'DAlways', (False, False): 'DNever'}[(de, dn)]
+                    if rest:
+                        raise TranslateError(f'{w}: statements after the emptiness test')
+                    return
+                raise TranslateError(f'{w}: unrecognised test {ast.unparse(t)}')
+            # -- taking the entity out
+            if isinstance(st, ast.Expr) and isinstance(st.value, ast.Call) and isinstance(st.value.func, ast.Attribute) \
+                    and st.value.func.attr in ('discard', 'remove') and is_var(st.value.func.value) and S['rem'] is None:
+                c = st.value
+                if len(c.args) != 1 or c.keywords or not nm(c.args[0], ep):
+                    raise TranslateError(f'{w}: something else than the entity is taken out of the set')
+                S['rem'] = 'RDiscard' if c.func.attr == 'discard' else 'RRemove'
+                continue
+            if S['rem'] is not None and S['drop'] is None and is_del(st):
+                S['drop'] = 'DAlways'
+                if rest:
+                    raise TranslateError(f'{w}: statements after the deletion')
+                return
+            raise TranslateError(f'{w}: unrecognised statement {ast.unparse(st)[:80]}')
+
+    walk(norm(_strip_doc(fn.body)))
+    if S['look'] is None or S['rem'] is None:
+        raise TranslateError(f'{where}: no lookup of the set / the entity is never taken out of it')
+    drop = S['drop'] or 'DNever'
+    b = lambda x: 'true' if x else 'false'   # noqa: E731
+    coq = f'Definition gen_remove_copyset : rc_shape := RC {S["look"]} {b(S["guarded"])} {S["rem"]} {drop}.\n'
+    return coq, dict(look=S['look'], absent_skips=S['guarded'], rem=S['rem'], drop=drop)
+
+
 # ---------------------------------------------------------------------------------------------- Entity.__setitem__ maintenance
 def _coq_str(s: str) -> str:
     return '[' + ';'.join(str(ord(c)) for c in s) + ']%N' if s else '[]'
@@ -842,10 +1009,12 @@ def translate() -> tuple[str, dict]:
     c5, s5 = _add_ents_prog(_find(tree, 'VMF', 'add_ents'))
     c2, s2 = _search_shape(_find(tree, 'VMF', 'search'))
     c3, s3 = _copyset_iter(_find(tree, 'CopySet', '__iter__'))
+    c6, s6 = _remove_copyset_shape(_find(tree, None, '_remove_copyset'))
     text = ('(* GENERATED by translate/c07_index_shapes.py from /repo/src/srctools/vmf.py. Do not edit. *)\n'
             'From stdpp Require Import list.\nFrom Coq Require Import NArith.\n'
-            'From SV Require Import SM.IndexModel SM.IndexShapes SM.IndexMaint.\n\n' + c1 + '\n' + c2 + '\n' + c3 + '\n' + c4 + '\n' + c5)
-    return text, {'setitem': s1, 'search': s2, 'copyset_iter': s3, 'setitem_maint': s4, 'add_ents': s5}
+            'From SV Require Import SM.IndexModel SM.IndexShapes SM.IndexMaint SM.IndexRemove.\n\n' + c1 + '\n' + c2 + '\n' + c3 + '\n' + c4 + '\n' + c5
+            + '\n' + c6)
+    return text, {'setitem': s1, 'search': s2, 'copyset_iter': s3, 'setitem_maint': s4, 'add_ents': s5, 'remove_copyset': s6}
 
 
 GEN = {'IndexShapes_gen': translate}
